@@ -1,3 +1,145 @@
-//! C03, real-binary family (directory trees) — filled in once the CLI runner exists.
+//! C03, real-binary family: annotated and un-annotated items spread over a directory tree with non-Rust files; an item that
+//! cannot be generated must make the run fail, whatever order the files arrive in.
+use crate::c01_05::c03;
+use crate::cli;
 use crate::common::*;
-pub fn run_cli_family(_run: &Run) {}
+use crate::factcheck::Ctx;
+use crate::gen;
+use crate::model::*;
+use crate::observe::observe;
+use crate::prog::match_decls;
+use crate::ts::{Cfg, Lang};
+use crate::ws::{self, Workspace};
+use proptest::prelude::*;
+use serde::{Deserialize, Serialize};
+use serde_json::json;
+use std::time::Duration;
+
+#[derive(Clone, Debug, Serialize, Deserialize)]
+pub struct Case {
+    pub ws: Workspace,
+    pub lang: Lang,
+    /// file slot that additionally holds an annotated item typeshare cannot generate (tuple struct with two fields)
+    pub bad_in_file: Option<usize>,
+}
+
+pub struct C03Cli;
+impl SubCheck for C03Cli {
+    type Case = Case;
+    fn name(&self) -> &'static str {
+        "c03-cli"
+    }
+    fn strategy(&self, _tier: Tier) -> BoxedStrategy<Case> {
+        let g = (c03().gen)();
+        (gen::program(&g), ws::slots(1..=3, 2..=7), proptest::collection::vec(0usize..7, 8), ws::lang_strategy(), prop_oneof![2 => Just(None), 1 => (0usize..7).prop_map(Some)])
+            .prop_map(|(items, slots, assign, lang, bad)| {
+                let mut w = ws::distribute(items, &slots, &assign);
+                // decoys: text that looks annotated but is not Rust source, and a Rust file without any annotation
+                w.extra.push(("docs/README.md".into(), "#[typeshare]\npub struct FromReadme { pub f: u8 }\n".into()));
+                w.extra.push(("the-notes/src/notes.txt".into(), "#[typeshare]\npub struct FromNotes { pub f: u8 }\n".into()));
+                w.extra.push(("plain-crate/src/plain.rs".into(), "pub struct NeverAnnotated { pub f: u8 }\n// #[typeshare] only mentioned in a comment\n".into()));
+                let bad_in_file = bad.map(|b| b % w.files.len().max(1));
+                Case { ws: w, lang, bad_in_file }
+            })
+            .boxed()
+    }
+    fn eval(&self, run: &Run, c: &Case, w: &mut Worker, counting: bool) -> Vec<Violation> {
+        let mut out = vec![];
+        let lang = c.lang;
+        let mut wsx = c.ws.clone();
+        // consts only where the back end has them
+        if matches!(lang, Lang::Kotlin | Lang::Swift | Lang::Scala) {
+            for f in wsx.files.iter_mut() {
+                f.items.retain(|i| !matches!(i.kind, Kind::Const { .. }));
+            }
+        }
+        if let Some(b) = c.bad_in_file {
+            if let Some(f) = wsx.files.get_mut(b) {
+                f.tail.push_str("\n#[typeshare]\npub struct CannotBeGenerated(pub u32, pub u32);\n");
+            }
+        }
+        let items: Vec<Item> = wsx.files.iter().flat_map(|f| f.items.iter().cloned()).collect();
+        if !items.iter().any(|i| i.annotated) && c.bad_in_file.is_none() {
+            return out; // nothing annotated at all: the CLI reports "nothing to do", not C03's subject
+        }
+        let root = cli::fresh_dir(&w.scratch, "c03");
+        let tree = root.join("tree");
+        cli::write_tree(&tree, &wsx.tree());
+        let cfg = Cfg::plain();
+        if counting {
+            run.label(&format!("c03cli/{}/{}", lang.short(), if c.bad_in_file.is_some() { "with-ungeneratable-item" } else { "clean" }));
+            run.nontrivial(hash_of(&(serde_json::to_string(&wsx).unwrap_or_default(), lang)));
+        }
+        let orders: Vec<Option<&str>> = if c.bad_in_file.is_some() { vec![None, Some("rev"), Some("0")] } else { vec![None] };
+        for ord in orders {
+            let outp = root.join(format!("out.{}", lang.ext()));
+            let _ = std::fs::remove_file(&outp);
+            let mut args = cli::lang_args(lang, &cfg);
+            args.extend(["-o".into(), outp.to_string_lossy().into_owned(), tree.to_string_lossy().into_owned()]);
+            let env: Vec<(String, String)> = ord.map(|o| vec![("TYPESHARE_VERIF_ORDER".to_string(), o.to_string())]).unwrap_or_default();
+            let r = cli::run(&args, &root, &env, Duration::from_secs(20));
+            if r.timed_out || r.panicked() {
+                if counting {
+                    run.label("c03cli/panic-or-hang(left to C07)");
+                }
+                continue;
+            }
+            if c.bad_in_file.is_some() {
+                if r.code == Some(0) {
+                    let text = std::fs::read_to_string(&outp).unwrap_or_default();
+                    out.push(Violation::new(
+                        format!("cli/silent-omit/arrival-order={}", ord.unwrap_or("natural")),
+                        format!("{}: an annotated tuple struct with two fields cannot be generated, yet the run exits 0 and the output {} it (arrival order {})", lang.name(), if text.contains("CannotBeGenerated") { "contains" } else { "silently omits" }, ord.unwrap_or("natural")),
+                    ));
+                }
+                continue;
+            }
+            if !r.ok() {
+                if counting {
+                    run.label(&format!("c03cli/not-generated/exit={:?}", r.code));
+                }
+                continue;
+            }
+            let text = std::fs::read_to_string(&outp).unwrap_or_default();
+            for decoy in ["FromReadme", "FromNotes", "NeverAnnotated"] {
+                if text.contains(decoy) {
+                    out.push(Violation::new(format!("cli/{}/item-extra/decoy-file", lang.short()), format!("{}: `{decoy}` (from a non-Rust or un-annotated file) appears in the output", lang.name())));
+                }
+            }
+            match observe(lang, &text, w, false) {
+                Ok(obs) => {
+                    let m = match_decls(&items, lang, &cfg, &obs.file);
+                    let ctx = Ctx { items: &items, cfg: &cfg, lang, text: &text, obs: &obs, m: &m, run, counting };
+                    for v in (c03().oracle)(&ctx) {
+                        out.push(Violation::new(format!("cli/{}", v.sig), v.detail));
+                    }
+                }
+                Err(_) => {
+                    if counting {
+                        run.label(&format!("c03cli/unobservable/{}", lang.short()));
+                    }
+                }
+            }
+        }
+        let _ = std::fs::remove_dir_all(&root);
+        out.sort_by(|a, b| a.sig.cmp(&b.sig));
+        out.dedup_by(|a, b| a.sig == b.sig);
+        out
+    }
+    fn render(&self, c: &Case) -> serde_json::Value {
+        json!({"lang": c.lang.name(), "bad_in_file": c.bad_in_file, "files": c.ws.tree().iter().map(|(p, t)| json!({"path": p, "content": String::from_utf8_lossy(t)})).collect::<Vec<_>>()})
+    }
+}
+
+pub fn run_cli_family(run: &Run) {
+    if !cli::bin_available() {
+        run.inconclusive("typeshare binary not built");
+        return;
+    }
+    replay_regress(run, &C03Cli);
+    search(run, &C03Cli, run.tier.pick(300, 4000));
+}
+
+pub fn replay(run: &Run, case: &serde_json::Value) -> Result<Vec<Violation>, String> {
+    replay_case(run, &C03Cli, case)
+}
